@@ -387,16 +387,30 @@ pub fn same_result(rule: &'static str, buf: &[u8], a: &Res, b: &Res, what: &str)
 
 /// `ample`: the same entry/config/buffer observed with ample capacity.
 pub fn c17(buf: &[u8], o: &Obs, ample: &Obs) -> Option<Fail> {
+    c17_ref(buf, o, ample, None)
+}
+
+/// `ref_completed`: the number of header lines the reference model considers completely received
+/// (with ample capacity) before its terminal event, when available. The parser's own ample-capacity
+/// run must agree with it (a parser that stores a line it has not completely received is
+/// self-consistent, so only the independent count can tell).
+pub fn c17_ref(buf: &[u8], o: &Obs, ample: &Obs, ref_completed: Option<usize>) -> Option<Fail> {
     let n = o.cap;
     let kind = Kind::of(o.entry);
     if kind == Kind::Chunk {
         return None;
     }
     // headers the ample run completed before its terminal event
-    let w = match ample.res.st {
+    let w_own = match ample.res.st {
         St::Complete(_) => ample.hdr_len,
         _ => ample.slots.iter().take_while(|s| matches!(s, Slot::Hdr(..))).count(),
     };
+    if let Some(r) = ref_completed {
+        if r != w_own && ample.panic.is_none() {
+            return fail("headers_completed_differs_from_reference", format!("ample-capacity run ({}) stored {} headers before its terminal event, the reference model counts {} completely received header lines", ample.res.st.show(), w_own, r));
+        }
+    }
+    let w = ref_completed.unwrap_or(w_own);
     // capacity law
     if w >= n + 1 {
         if o.res.st != St::Err(ErrK::TooManyHeaders) {
